@@ -33,6 +33,14 @@ type Pool struct {
 	lim     Limits
 	start   time.Time
 	tokens  Tokens
+	busyNS  int64 // token-holding time summed over workers
+}
+
+// charge adds the time an explorer has held a token since its last charge.
+func (p *Pool) charge(ex *Explorer) {
+	now := time.Now()
+	atomic.AddInt64(&p.busyNS, int64(now.Sub(ex.lastCharge)))
+	ex.lastCharge = now
 }
 
 func (p *Pool) put(job []event) {
@@ -55,8 +63,11 @@ func (p *Pool) overBudget() string {
 	if p.lim.MaxPaths > 0 && atomic.LoadInt64(&p.paths) >= int64(p.lim.MaxPaths) {
 		return fmt.Sprintf("path budget %d exhausted before the path tree was covered", p.lim.MaxPaths)
 	}
-	if p.lim.MaxSeconds > 0 && time.Since(p.start).Seconds() > p.lim.MaxSeconds {
-		return fmt.Sprintf("time budget %.0fs exhausted before the path tree was covered", p.lim.MaxSeconds)
+	// The time budget is charged in core-time: seconds of holding one of the
+	// cap(tokens) execution tokens, divided by cap(tokens). A harness that
+	// shares the cores with sibling harnesses is therefore not cut short by them.
+	if p.lim.MaxSeconds > 0 && float64(atomic.LoadInt64(&p.busyNS))/1e9/float64(cap(p.tokens)) > p.lim.MaxSeconds {
+		return fmt.Sprintf("time budget %.0fs (x%d cores) exhausted before the path tree was covered", p.lim.MaxSeconds, cap(p.tokens))
 	}
 	return ""
 }
@@ -116,7 +127,9 @@ func ExploreParallel(mk func() (*Explorer, error), workers int, tokens Tokens, l
 					}
 					ex.start = time.Now()
 				}
+				ex.lastCharge = time.Now()
 				ex.runSubtree(job, p)
+				p.charge(ex)
 				tokens <- struct{}{}
 				if !ex.Res.Exhausted {
 					// budget cut: stop everything
